@@ -67,6 +67,10 @@ func (d *SnapDriver) Enabled(n *Node, i int) bool {
 	return m.resizes < d.maxResizes
 }
 
+// has0 / has1: is the first / second node in the map published for epoch e (nobody is in the maps of epochs 4, 9, 14, ...)
+func (d *SnapDriver) has0(e int) bool { return e >= 1 && e%5 != 4 }
+func (d *SnapDriver) has1(e int) bool { return e >= 1 && e%5 != 4 && e%2 == 1 }
+
 func (d *SnapDriver) blob(e int) []byte {
 	b := append([]byte{0, 0}, d.node.Pub()...)
 	return append(b, byte(e), byte(e>>8), 0xEE)
@@ -92,29 +96,29 @@ func (d *SnapDriver) Step(x *Exec, n *Node, i int) StepResult {
 	switch {
 	case i == 0:
 		e := m.cur + 1
-		o1, n1 := x.Do(cur, Call{Script: Script(h, "addPeerIR", d.blob(e)), Signers: A, Label: "addPeerIR"})
-		if !o1.Halt {
-			hpanic("C08 setup addPeerIR: %s", o1.Fault)
-		}
-		n2a := []any{[]any{fmt.Sprintf("e%d", e)}, stackitem.NewMap(), d.node.Pub(), int64(1)}
-		o2, n2 := x.Do(n1, Call{Script: Script(h, "addNode", n2a), Signers: []util.Uint160{w.Alpha, d.node.Hash}, Label: "addNode"})
-		if !o2.Halt {
-			hpanic("C08 setup addNode: %s", o2.Fault)
-		}
-		// the second node joins for odd epochs and leaves for even ones (maps of one and of two nodes alternate)
-		if e%2 == 1 {
-			for _, c := range []Call{{Script: Script(h, "addPeerIR", d.blob1(e)), Signers: A, Label: "addPeerIR(node1)"},
-				{Script: Script(h, "addNode", []any{[]any{fmt.Sprintf("f%d", e)}, stackitem.NewMap(), d.node1.Pub(), int64(1)}), Signers: []util.Uint160{w.Alpha, d.node1.Hash}, Label: "addNode(node1)"}} {
+		// the first node announces itself anew for every epoch, the second node joins for odd epochs and leaves for even
+		// ones (maps of one and of two nodes alternate), and every fifth epoch (4, 9, 14, ...) is published with nobody
+		// in it (an empty map has to overwrite whatever its ring slot held)
+		n2 := cur
+		do := func(cs ...Call) {
+			for _, c := range cs {
 				var oo Obs
 				if oo, n2 = x.Do(n2, c); !oo.Halt {
 					hpanic("C08 setup %s: %s", c.Label, oo.Fault)
 				}
 			}
-		} else if e > 1 {
-			var oo Obs
-			if oo, n2 = x.Do(n2, Call{Script: Script(h, "updateStateIR", int64(2), d.node1.Pub()), Signers: A, Label: "node1 goes offline"}); !oo.Halt {
-				hpanic("C08 setup node1 offline: %s", oo.Fault)
-			}
+		}
+		if d.has0(e) {
+			do(Call{Script: Script(h, "addPeerIR", d.blob(e)), Signers: A, Label: "addPeerIR"},
+				Call{Script: Script(h, "addNode", []any{[]any{fmt.Sprintf("e%d", e)}, stackitem.NewMap(), d.node.Pub(), int64(1)}), Signers: []util.Uint160{w.Alpha, d.node.Hash}, Label: "addNode"})
+		} else if d.has0(e - 1) {
+			do(Call{Script: Script(h, "updateStateIR", int64(2), d.node.Pub()), Signers: A, Label: "node0 goes offline"})
+		}
+		if d.has1(e) {
+			do(Call{Script: Script(h, "addPeerIR", d.blob1(e)), Signers: A, Label: "addPeerIR(node1)"},
+				Call{Script: Script(h, "addNode", []any{[]any{fmt.Sprintf("f%d", e)}, stackitem.NewMap(), d.node1.Pub(), int64(1)}), Signers: []util.Uint160{w.Alpha, d.node1.Hash}, Label: "addNode(node1)"})
+		} else if d.has1(e - 1) {
+			do(Call{Script: Script(h, "updateStateIR", int64(2), d.node1.Pub()), Signers: A, Label: "node1 goes offline"})
 		}
 		o3, n3 := x.Do(n2, Call{Script: Script(h, "newEpoch", int64(e)), Signers: A, Label: fmt.Sprintf("newEpoch(%d)", e)})
 		if !o3.Halt {
@@ -166,7 +170,13 @@ func (d *SnapDriver) Step(x *Exec, n *Node, i int) StepResult {
 		if nm.keep > 0 {
 			r := w.Read(cur.L, cur.H, cur.TS, h, "netmap")
 			l, _ := r.Ret0().([]any)
-			want := 1 + nm.cur%2
+			want := 0
+			if d.has0(nm.cur) {
+				want++
+			}
+			if d.has1(nm.cur) {
+				want++
+			}
 			if !r.Halt || len(l) != want {
 				return viol("netmap-not-newest", fmt.Sprintf("netmap() holds %d nodes at epoch %d, want %d (%s)", len(l), nm.cur, want, r.Fault))
 			}
@@ -191,16 +201,22 @@ func (d *SnapDriver) Step(x *Exec, n *Node, i int) StepResult {
 		return fmt.Sprint(ss)
 	}
 	legacyL := func(e int) []any {
-		l := []any{[]any{NX(d.blob(e)), "i1"}}
-		if e%2 == 1 {
+		l := []any{}
+		if d.has0(e) {
+			l = append(l, []any{NX(d.blob(e)), "i1"})
+		}
+		if d.has1(e) {
 			l = append(l, []any{NX(d.blob1(e)), "i1"})
 		}
 		return l
 	}
 	legacy := func(e int) any { return asSet(legacyL(e)) }
 	v2 := func(e int) string {
-		l := []any{[]any{[]any{NXs(fmt.Sprintf("e%d", e))}, []any{"map"}, NX(d.node.Pub()), "i1"}}
-		if e%2 == 1 {
+		l := []any{}
+		if d.has0(e) {
+			l = append(l, []any{[]any{NXs(fmt.Sprintf("e%d", e))}, []any{"map"}, NX(d.node.Pub()), "i1"})
+		}
+		if d.has1(e) {
 			l = append(l, []any{[]any{NXs(fmt.Sprintf("f%d", e))}, []any{"map"}, NX(d.node1.Pub()), "i1"})
 		}
 		return asSet(l)
